@@ -355,3 +355,51 @@ Proof.
       rewrite N.testbit_even_succ in Hi by lia. apply IH in Hi; lia.
   - change (ctzP 1) with 0. lia.
 Qed.
+
+(** * Summary used by Properties_C01 *)
+Local Open Scope N_scope.
+Theorem tables_all :
+  (forall s, s < 64 ->
+     kingAttacks s < 2 ^ 64 /\ knightAttacks s < 2 ^ 64 /\ wPawnAttacks s < 2 ^ 64 /\ bPawnAttacks s < 2 ^ 64) /\
+  (forall s t, s < 64 -> t < 64 ->
+     N.testbit (kingAttacks s) t = step_rel king_offsets s t /\
+     N.testbit (knightAttacks s) t = step_rel knight_offsets s t /\
+     N.testbit (wPawnAttacks s) t = step_rel wpawn_offsets s t /\
+     N.testbit (bPawnAttacks s) t = step_rel bpawn_offsets s t) /\
+  (forall f t, f < 8 -> t < 64 ->
+     N.testbit (epMaskWF f) t = ((zr t =? 3) && (Z.abs (zf t - Z.of_N f) =? 1))%Z /\
+     N.testbit (epMaskBF f) t = ((zr t =? 4) && (Z.abs (zf t - Z.of_N f) =? 1))%Z) /\
+  (forall a b, a < 64 -> b < 64 ->
+     squaresBetween a b < 2 ^ 64 /\
+     (forall t, t < 64 -> N.testbit (squaresBetween a b) t = between_rel a b t) /\
+     getDirection a b = dir_rel a b) /\
+  (forall m, 0 < m -> m < 2 ^ 64 ->
+     firstBitT m = firstBit m /\ N.testbit m (firstBit m) = true /\
+     (forall i, N.testbit m i = true -> firstBit m <= i) /\
+     (forall i, N.testbit (clearLowest m) i = N.testbit m i && negb (i =? firstBit m))) /\
+  (forall i, i < 64 -> lastBitT (bit i) = i /\ lastBitT (N.ones (i + 1)) = i /\ bitCountT (N.ones (i + 1)) = i + 1).
+Proof.
+  repeat split.
+  - apply (kingAttacks_spec s H).
+  - apply (knightAttacks_spec s H).
+  - apply (wPawnAttacks_spec s H).
+  - apply (bPawnAttacks_spec s H).
+  - apply (kingAttacks_spec s H); assumption.
+  - apply (knightAttacks_spec s H); assumption.
+  - apply (wPawnAttacks_spec s H); assumption.
+  - apply (bPawnAttacks_spec s H); assumption.
+  - apply (epMask_spec f t H H0).
+  - apply (epMask_spec f t H H0).
+  - apply (squaresBetween_spec a b H H0).
+  - apply (squaresBetween_spec a b H H0).
+  - apply (getDirection_spec a b H H0).
+  - apply firstBitT_correct; assumption.
+  - apply firstBit_testbit; assumption.
+  - intros i Hi. apply firstBit_lowest; assumption.
+  - intro i. apply clearLowest_spec; assumption.
+  - pose proof (sweep1 _ singleBits_ok i H) as Hs. rewrite !andb_true_iff in Hs.
+    destruct Hs as [[[[[_ Hs] _] _] _] _]. apply N.eqb_eq in Hs. exact Hs.
+  - apply lastBitT_prefix; assumption.
+  - pose proof (sweep1 _ singleBits_ok i H) as Hs. rewrite !andb_true_iff in Hs.
+    destruct Hs as [_ Hs]. apply N.eqb_eq in Hs. exact Hs.
+Qed.
